@@ -27,8 +27,9 @@ pub fn plan(tier: &str, seed: u64) -> Vec<Batch> {
         // entropy are initialised inside the racing calls
         let chunk = 20;
         let mut lo = 0;
+        let top = crate::rng::top_of_range_seed();
         while lo < fresh {
-            v.push(Batch { check: "C16".into(), phase: "first-use".into(), uni: uni.clone().workers(4), seed, lo, hi: (lo + chunk).min(fresh), fresh: true, tier: tier.into(), extra: Value::Null });
+            v.push(Batch { check: "C16".into(), phase: "first-use".into(), uni: uni.clone().workers(4), seed, lo, hi: (lo + chunk).min(fresh), fresh: true, tier: tier.into(), extra: json!({"top_seed": top}) });
             lo += chunk;
         }
     }
@@ -309,6 +310,15 @@ pub fn eval(case: &Case, out: &RunOut, st: &mut Stats) {
     if case.plan.dup_entropy {
         st.count("runs_with_duplicated_entropy", 1);
     }
+    if case.plan.seed_entropy.is_some() {
+        st.count("runs_with_top_of_range_entropy", 1);
+        // how close to the limit did the ids get?
+        if let Some(m) = hist.iter().filter_map(|e| if let HOp::Store { id, .. } = e.op { Some(id) } else { None }).max() {
+            if m > -4096 - 4096 {
+                st.count("probe.id_within_4096_of_the_limit", 1);
+            }
+        }
+    }
     st.merge_runout(out);
     if case.jobs.len() > 1 && out.switches > 0 {
         let mut hh = case.hash();
@@ -351,7 +361,16 @@ pub fn run(u: &mut Universe, b: &Batch, st: &mut Stats) {
                 None => continue,
             }
         } else {
-            gen_case(b.seed, idx, &b.uni, b.fresh)
+            let mut c = gen_case(b.seed, idx, &b.uni, b.fresh);
+            // every fourth first-use history: adversarial entropy - the id
+            // generator's first draw lands at the very top of its range
+            if b.fresh && idx % 4 == 3 {
+                if let Some(t) = b.extra["top_seed"].as_str() {
+                    c.plan.seed_entropy = Some(t.to_string());
+                    c.plan.dup_entropy = false;
+                }
+            }
+            c
         };
         for i in 0..crate::ops::NSLOTS {
             crate::ops::IDSLOTS[i].store(0, std::sync::atomic::Ordering::SeqCst);
